@@ -36,3 +36,9 @@ package mysql
 //@ lemma C12.lem_q_ge_1 [C12]: forall n int, w int :: n >= 0 && w >= 0 ==> quorum(n, w) >= 1
 //@ lemma C12.lem_q_plus_r [C12]: forall n int, w int :: n >= 0 && w >= 0 ==> quorum(n, w) + reqWait(n, w) > replicasIn(n)
 //@ lemma C12.lem_intersect [C12]: forall n int, w int, f int, a int :: n >= 0 && w >= 0 && f >= quorum(n, w) && a >= reqWait(n, w) && reqWait(n, w) >= 1 && f <= replicasIn(n) && a <= replicasIn(n) ==> f + a > replicasIn(n)
+
+// ---- Node accessors --------------------------------------------------------------------------
+
+//@ func (*mysql.Node).Host
+//@   requires nonnil [safety]: n != nil
+//@   ensures def [C16,C10,C08,C01,C04,C11,C17,C18,C19]: result == n.host
